@@ -74,4 +74,43 @@ Proof.
   eapply Forall_impl; [|exact Hall]. intros [[j ph] sn]. cbn. destruct ph; intros H E; try discriminate. exact H.
 Qed.
 
+(* ... and without any condition on the remaining work: the PERT refresh is
+   idempotent on its own result for every state (PertStable.pert_refresh_idempotent_any) *)
+Theorem update_idempotent_any o s : dag c rank -> PInv s -> update c o (update c o s) = update c o s.
+Proof.
+  intros HD HP. rewrite (update_stable c o s HP).
+  set (s5 := pre_pert c o s).
+  assert (Eu : update c o s = update_pert c (time s5) s5) by reflexivity.
+  assert (Et : time (update c o s) = time s5) by (rewrite Eu; apply (pi_update_pert c _ time); reflexivity).
+  rewrite Et. rewrite Eu.
+  apply (pert_refresh_idempotent_any c rank HD (time s5) s5).
+Qed.
+
+(* every acyclic network, any mix of dependency kinds: the resumed run is the
+   uninterrupted run *)
+Theorem pause_resume_any (o : opts) (s : pstate) (k m : nat) : k <= m -> dag c rank -> Forest c ->
+  (o_init_state o = true \/ PInv s) ->
+  let paused := fst (simulate c (with_max o k) s) in
+  fst (simulate c (resume_opts o m) paused) = fst (simulate c (with_max o m) s).
+Proof.
+  intros Hkm HD HF Hstart. apply pause_resume; [exact Hkm|].
+  destruct (simulate_trace c (with_max o m) s) as (tr & Htr & Esnd). rewrite Esnd in *.
+  assert (H0 : PInv (initialize c (with_max o m) s)).
+  { destruct (o_init_state o) eqn:E; [apply PInv_initialize; exact E|].
+    destruct Hstart as [H|H]; [discriminate|]. unfold initialize. cbn [o_init_state with_max]. rewrite E. exact H. }
+  destruct (trace_invariant c (with_max o m) PInv
+              (fun u => PInv u /\ update c o u = u) PInv PInv PInv
+              (fun x Hx => conj (PInv_update c (with_max o m) x Hx) (update_idempotent_any o x HD Hx))
+              (fun x Hx => PInv_step_allocate c HF (with_max o m) x (proj1 Hx))
+              (fun x Hx => PInv_ext x (step_perform c (with_max o m) x)
+                             ltac:(intros j; unfold step_perform; destruct (negb (mem (time x) (o_abs (with_max o m)))); [reflexivity|destruct (o_auto_abs (with_max o m)); reflexivity])
+                             ltac:(unfold step_perform; destruct (negb (mem (time x) (o_abs (with_max o m)))); [reflexivity|destruct (o_auto_abs (with_max o m)); reflexivity]) Hx)
+              (fun x Hx => PInv_ext x (step_record c (with_max o m) x) (fun j => eq_refl) eq_refl Hx)
+              (fun x Hx => PInv_ext x (with_time x (S (time x))) (fun j => eq_refl) eq_refl Hx)
+              _ _ _ Htr H0) as [Hall _].
+  unfold stable_heads. rewrite Forall_forall in *. intros ob Hin Hph.
+  specialize (Hall ob Hin). destruct ob as [[j ph] sn]. cbn in *. subst ph. cbn in Hall.
+  apply Hall.
+Qed.
+
 End C15Run.
